@@ -1,7 +1,6 @@
 (* Refinement of the scheduling model to the per-question and per-channel specifications of
-   Model/SchedSpec.v: on every history in which the hazard flag never rises, the model's trace
-   satisfies chk_C19, chk_C13 and chk_C12.  Also: histories on which the daemon is never woken
-   later than it asked (timely) are hazard free; closed form of the back-off ladder. *)
+   Model/SchedSpec.v: on EVERY well-formed history the model's trace satisfies chk_C19, chk_C13
+   and chk_C12.  Also: closed form of the back-off ladder on the timer-exact silent schedule. *)
 From Coq Require Import List NArith Bool Lia PeanoNat.
 From Mdns Require Import Bytes ParamsSched Sched SchedSpec SchedParamsProofs SchedProofs.
 Import ListNotations.
@@ -125,30 +124,83 @@ Ltac sstep := unfold set_sched; cbn [st_owners st_retrans st_timers st_clock st_
 
 (* ------------------------------------------------------------------ chain => owner *)
 (* every queued retransmission belongs to the current search of its key: same channel, and
-   its time lies before the search's deadline.  Holds as long as no hazard occurred. *)
+   its time lies before the search's deadline (holds between iterations) *)
 Definition InvH (s : state) : Prop :=
   forall r, In r (st_retrans s) ->
   exists o, lookup (rkey r) (st_owners s) = Some o /\ ow_ch o = r_ch r
             /\ (forall d, ow_deadline o = Some d -> r_time r < d).
 
-Lemma hazard_false now owners retrans e r :
-  hazard now owners retrans = false -> In e owners -> expired now e = true -> In r retrans ->
-  rkey r <> fst e.
+(* a browse owner never has a deadline (the API offers none: wf_cmd) *)
+Definition InvB (s : state) : Prop :=
+  forall e, In e (st_owners s) -> fst (fst e) = false -> ow_deadline (snd e) = None.
+
+(* ---- the retransmission of a timed-out search.  The deadline block of run leaves it in the
+   list; it is due in the same iteration and the re-run drops it (early return of
+   exec_command_resolve_hostname).  For the proofs the iteration is rewritten into an
+   equivalent one (iterate_p) that drops such entries right after the deadline block. *)
+Definition purge_dead (s : state) : state :=
+  set_sched s (st_timers s) (filter (rerun_live (st_owners s)) (st_retrans s)) (st_owners s).
+Definition timeout_phase_p (now : N) (s : state) : state := purge_dead (timeout_phase now s).
+
+Lemma live_of_lookup owners r o : lookup (rkey r) owners = Some o -> rerun_live owners r = true.
+Proof. intros L. unfold rerun_live. rewrite L. apply orb_true_r. Qed.
+
+Lemma invh_all_live s : InvH s -> forall r, In r (st_retrans s) -> rerun_live (st_owners s) r = true.
+Proof. intros H r Hr. destruct (H r Hr) as [o [L _]]. eapply live_of_lookup. exact L. Qed.
+
+Lemma filter_true {A} (Q : A -> bool) l : (forall x, In x l -> Q x = true) -> filter Q l = l.
 Proof.
-  intros H He Hx Hr E. unfold hazard in H.
-  assert (existsb (fun e0 => expired now e0 && existsb (fun r0 => okey_eqb (rkey r0) (fst e0)) retrans) owners = true).
-  { apply existsb_exists. exists e. split; [exact He|]. rewrite Hx. simpl.
-    apply existsb_exists. exists r. split; [exact Hr|]. apply okey_eqb_eq. exact E. }
-  congruence.
+  induction l as [|x t IH]; simpl; intros H; [reflexivity|].
+  rewrite (H x (or_introl eq_refl)). f_equal. apply IH. intros y Hy. apply H. right. exact Hy.
+Qed.
+
+(* no surviving retransmission belongs to a search whose deadline has just passed *)
+Lemma purged_not_expired now s e r :
+  InvB s -> NoDup (map fst (st_owners s)) -> In e (st_owners s) -> expired now e = true ->
+  In r (st_retrans (timeout_phase_p now s)) -> rkey r <> fst e.
+Proof.
+  intros B ND He Hx Hr E. unfold timeout_phase_p, purge_dead in Hr. simpl in Hr.
+  apply filter_In in Hr as [Hr HL]. unfold rerun_live in HL.
+  assert (LN : lookup (rkey r) (filter (fun e0 => negb (expired now e0)) (st_owners s)) = None).
+  { apply lookup_None. intros Hin. apply in_map_iff in Hin as [e' [Ek He']].
+    apply filter_In in He' as [He' Hne].
+    assert (e' = e).
+    { destruct e as [k o], e' as [k' o']. simpl in *. subst k'. rewrite E in *. simpl in *.
+      pose proof (In_lookup k o _ ND He) as L1. pose proof (In_lookup k o' _ ND He') as L2. congruence. }
+    subst e'. rewrite Hx in Hne. discriminate. }
+  rewrite LN in HL. rewrite orb_false_r in HL. apply negb_true_iff in HL.
+  assert (Hb : fst (fst e) = false). { rewrite <- E. unfold rkey, okey_of. simpl. exact HL. }
+  unfold expired in Hx. rewrite (B e He Hb) in Hx. discriminate.
 Qed.
 
 Lemma invh_timeout now s :
-  InvH s -> hazard now (st_owners s) (st_retrans s) = false -> InvH (timeout_phase now s).
+  InvH s -> InvB s -> NoDup (map fst (st_owners s)) -> InvH (timeout_phase_p now s).
 Proof.
-  intros H Hz r Hr. simpl in Hr. destruct (H r Hr) as [o [L [C D]]].
+  intros H B ND r Hr. pose proof Hr as Hr0. unfold timeout_phase_p, purge_dead in Hr. simpl in Hr.
+  apply filter_In in Hr as [Hr _]. destruct (H r Hr) as [o [L [C D]]].
   exists o. split; [|auto]. simpl. apply lookup_filter_keep; [exact L|].
   apply negb_true_iff. destruct (expired now (rkey r, o)) eqn:E; [|reflexivity].
-  exfalso. apply (hazard_false now _ _ (rkey r, o) r Hz); [apply lookup_In; exact L | exact E | exact Hr | reflexivity].
+  exfalso. apply (purged_not_expired now s (rkey r, o) r B ND); [apply lookup_In; exact L | exact E | exact Hr0 | reflexivity].
+Qed.
+
+Lemma invb_timeout now s : InvB s -> InvB (timeout_phase_p now s).
+Proof. intros B e He. simpl in He. apply filter_In in He as [He _]. auto. Qed.
+
+Lemma invb_cmd now c s : InvB s -> wf_cmd c = true -> InvB (fst (fst (exec_cmd now c s))).
+Proof.
+  intros B W. destruct c as [host nm cache timeout ch|host nm|secs|]; simpl.
+  - unfold exec_start.
+    assert (Hown : forall e, In e ((okey_of host nm, mkOwner ch (option_map (sat_add now) timeout))
+                                   :: remove_key (okey_of host nm) (st_owners s)) ->
+                   fst (fst e) = false -> ow_deadline (snd e) = None).
+    { intros e [<-|He] Hb.
+      - simpl in Hb. subst host. simpl in W. destruct timeout; [discriminate | reflexivity].
+      - apply in_remove_key in He as [He _]. auto. }
+    destruct cache; exact Hown.
+  - unfold exec_stop. destruct (lookup _ _); [|exact B]. intros e He. simpl in He.
+    apply in_remove_key in He as [He _]. auto.
+  - exact B.
+  - intros e [].
 Qed.
 
 Lemma requeue_ok_lookup key owners nt ch dd :
@@ -191,9 +243,25 @@ Proof.
   - congruence.
 Qed.
 
-Lemma invh_rerun now s s3 p e : InvH s -> rerun_phase now s = (s3, p, e) -> InvH s3.
+(* the re-run as it is when every queued retransmission still has its search *)
+Definition rerun_phase0 (now : N) (s : state) : result :=
+  let d := filter (due now) (st_retrans s) in
+  let keep := filter (fun r => negb (due now r)) (st_retrans s) in
+  let new := flat_map (rerun_one now (st_owners s)) d in
+  (set_sched s (map r_time new ++ st_timers s) (keep ++ new) (st_owners s),
+   map (fun r => pkt (r_host r) (r_name r)) d,
+   map (fun r => (r_ch r, EStarted (r_name r))) d).
+
+Lemma rerun_phase_live now s : InvH s -> rerun_phase now s = rerun_phase0 now s.
 Proof.
-  intros H E. unfold rerun_phase in E. injection E as E1 E2 E3. subst s3 p e. unfold InvH. simpl.
+  intros H. unfold rerun_phase, rerun_phase0.
+  rewrite (filter_true (rerun_live (st_owners s)) (filter (due now) (st_retrans s))); [reflexivity|].
+  intros r Hr. apply filter_In in Hr as [Hr _]. apply invh_all_live; assumption.
+Qed.
+
+Lemma invh_rerun now s s3 p e : InvH s -> rerun_phase0 now s = (s3, p, e) -> InvH s3.
+Proof.
+  intros H E. unfold rerun_phase0 in E. injection E as E1 E2 E3. subst s3 p e. unfold InvH. simpl.
   intros r Hr. apply in_app_or in Hr as [Hr|Hr].
   - apply filter_In in Hr as [Hr _]. exact (H r Hr).
   - apply in_flat_map in Hr as [r0 [H0 Hr]]. apply filter_In in H0 as [H0 _].
@@ -225,25 +293,38 @@ Definition Rk (k : wkey) (s : state) (st : kstate) : Prop :=
 Lemma is_k_chain_rerun k c ch : is_k k (chain_rerun k c ch) = true.
 Proof. unfold is_k, chain_rerun. simpl. apply same_q_true. auto. Qed.
 
+Lemma pend_purge_dead k s :
+  pend k (st_retrans (purge_dead s)) = filter (rerun_live (st_owners s)) (pend k (st_retrans s)).
+Proof. unfold purge_dead, pend. simpl. apply filter_comm. Qed.
+
 Lemma rk_timeout k now s st :
-  Rk k s st -> hazard now (st_owners s) (st_retrans s) = false ->
-  Rk k (timeout_phase now s) (k_timeout now st).
+  Rk k s st -> InvB s -> NoDup (map fst (st_owners s)) ->
+  Rk k (timeout_phase_p now s) (k_timeout now st).
 Proof.
-  intros R Hz. destruct st as [c|]; simpl; [|exact R].
+  intros R B ND. destruct st as [c|].
+  2:{ unfold k_timeout, Rk, timeout_phase_p. rewrite pend_purge_dead.
+      change (st_retrans (timeout_phase now s)) with (st_retrans s). unfold Rk in R. rewrite R. reflexivity. }
   destruct R as [Hd [ch [L P]]].
-  destruct (c_deadline c) as [d|] eqn:Ed.
+  assert (Hkeep : expired now (wkey_okey k, mkOwner ch (c_deadline c)) = false ->
+                  Rk k (timeout_phase_p now s) (Some c)).
+  { intros Hx. split; [exact Hd|]. exists ch.
+    assert (L1 : lookup (wkey_okey k) (st_owners (timeout_phase_p now s)) = Some (mkOwner ch (c_deadline c))).
+    { simpl. apply lookup_filter_keep; [exact L|]. rewrite Hx. reflexivity. }
+    split; [exact L1|]. unfold timeout_phase_p. rewrite pend_purge_dead.
+    change (st_retrans (timeout_phase now s)) with (st_retrans s). rewrite P.
+    destruct (chain_goes_on c); [|reflexivity]. simpl.
+    rewrite (live_of_lookup _ (chain_rerun k c ch) (mkOwner ch (c_deadline c))); [reflexivity|].
+    simpl in L1. rewrite (is_k_rkey k _ (is_k_chain_rerun k c ch)). exact L1. }
+  simpl. destruct (c_deadline c) as [d|] eqn:Ed.
   - destruct (d <=? now) eqn:E.
-    + simpl. destruct (chain_goes_on c); [|exact P].
-      exfalso. apply (hazard_false now _ _ (wkey_okey k, mkOwner ch (Some d)) (chain_rerun k c ch) Hz).
+    + unfold Rk. apply filter_nil_iff. intros r Hr. destruct (is_k k r) eqn:Ek; [|reflexivity]. exfalso.
+      apply (purged_not_expired now s (wkey_okey k, mkOwner ch (Some d)) r B ND).
       * apply lookup_In. exact L.
       * unfold expired. simpl. rewrite resolver_expired_pinned. exact E.
-      * assert (In (chain_rerun k c ch) (pend k (st_retrans s))) by (rewrite P; left; reflexivity).
-        apply filter_In in H as [H _]. exact H.
-      * simpl. apply is_k_rkey. apply is_k_chain_rerun.
-    + simpl. split; [exact Hd|]. exists ch. rewrite Ed. split; [|exact P].
-      apply lookup_filter_keep; [exact L|]. unfold expired. simpl. rewrite resolver_expired_pinned, E. reflexivity.
-  - simpl. split; [exact Hd|]. exists ch. rewrite Ed. split; [|exact P].
-    apply lookup_filter_keep; [exact L|]. reflexivity.
+      * exact Hr.
+      * simpl. apply is_k_rkey. exact Ek.
+    + apply Hkeep. unfold expired. simpl. rewrite ?Ed, resolver_expired_pinned. exact E.
+  - apply Hkeep. unfold expired. simpl. rewrite ?Ed. reflexivity.
 Qed.
 
 Lemma rk_start k now s st host nm cache timeout ch :
@@ -365,10 +446,10 @@ Proof.
 Qed.
 
 Lemma rk_rerun k now s st s3 p e :
-  Rk k s st -> rerun_phase now s = (s3, p, e) ->
+  Rk k s st -> rerun_phase0 now s = (s3, p, e) ->
   Rk k s3 (fst (k_rerun now st)) /\ count_pkt k p = snd (k_rerun now st).
 Proof.
-  intros R E. unfold rerun_phase in E. injection E as <- <- <-.
+  intros R E. unfold rerun_phase0 in E. injection E as <- <- <-.
   set (l := st_retrans s) in *. set (g := rerun_one now (st_owners s)).
   assert (Hp : pend k (filter (fun r => negb (due now r)) l ++ flat_map g (filter (due now) l))
                = filter (fun r => negb (due now r)) (pend k l) ++ flat_map g (filter (due now) (pend k l))).
@@ -410,85 +491,175 @@ Proof.
   simpl. exact A1.
 Qed.
 
-Lemma o_hazard_iterate s it :
-  o_hazard (snd (iterate s it)) = hazard (i_now it) (st_owners s) (st_retrans s).
+(* ---- the iteration is equal to one that drops dead retransmissions right after the deadline
+        block (they are all due, so the re-run would drop them anyway) ---- *)
+Definition dead_due (now : N) (s : state) : Prop :=
+  forall r, In r (st_retrans s) -> rerun_live (st_owners s) r = false -> r_time r <= now.
+
+Lemma live_agree owners owners' k r :
+  (forall k', k' <> k -> lookup k' owners' = lookup k' owners) -> rkey r <> k ->
+  rerun_live owners' r = rerun_live owners r.
+Proof. intros A Hk. unfold rerun_live. rewrite (A (rkey r) Hk). reflexivity. Qed.
+
+Lemma filter_live_purge owners owners' k R :
+  (forall k', k' <> k -> lookup k' owners' = lookup k' owners) ->
+  filter (rerun_live owners') (purge k R) = purge k (filter (rerun_live owners) R).
 Proof.
-  unfold iterate.
-  destruct (run_cmds _ _ _) as [[s2 p_c] ev_c]. destruct (st_alive s2); [destruct (rerun_phase _ _) as [[s3 p_r] ev_r]|]; reflexivity.
+  intros A. unfold purge at 2. rewrite filter_comm. fold (purge k R).
+  apply filter_ext_in. intros r Hr. apply in_purge in Hr as [_ Hr]. eapply live_agree; eassumption.
 Qed.
 
-Lemma rk_iterate k s it st :
-  InvH s -> Rk k s st -> o_hazard (snd (iterate s it)) = false ->
-  count_pkt k (o_sent (snd (iterate s it))) = (snd (fst (k_iter k it st)) + snd (k_iter k it st))%nat
-  /\ o_exited (snd (iterate s it)) = has_shutdown (i_cmds it)
-  /\ o_now (snd (iterate s it)) = i_now it
-  /\ st_alive (fst (iterate s it)) = negb (has_shutdown (i_cmds it))
-  /\ (has_shutdown (i_cmds it) = false ->
-      Rk k (fst (iterate s it)) (fst (fst (k_iter k it st))) /\ InvH (fst (iterate s it))).
+Lemma agree_cons_remove k o owners :
+  forall k', k' <> k -> lookup k' ((k, o) :: remove_key k owners) = lookup k' owners.
+Proof. intros k' H. rewrite lookup_cons_other by exact H. apply lookup_remove_other. exact H. Qed.
+
+Lemma agree_remove k owners : forall k', k' <> k -> lookup k' (remove_key k owners) = lookup k' owners.
+Proof. intros k' H. apply lookup_remove_other. exact H. Qed.
+
+Lemma dead_due_purge now k owners owners' R new timers s :
+  (forall k', k' <> k -> lookup k' owners' = lookup k' owners) ->
+  (forall r, In r R -> rerun_live owners r = false -> r_time r <= now) ->
+  (forall r, In r new -> rerun_live owners' r = true) ->
+  dead_due now (set_sched s timers (purge k R ++ new) owners').
 Proof.
-  intros H R Hz. rewrite o_hazard_iterate in Hz.
-  pose proof (rk_timeout k (i_now it) s st R Hz) as R1.
-  pose proof (invh_timeout (i_now it) s H Hz) as H1.
-  unfold iterate, k_iter.
-  destruct (run_cmds (i_now it) (i_cmds it) (timeout_phase (i_now it) s)) as [[s2 p_c] ev_c] eqn:E.
-  destruct (rk_cmds k (i_now it) (i_cmds it) _ _ s2 p_c ev_c R1 H1 E) as [C [S RH]].
-  pose proof (alive_run_cmds (i_now it) (i_cmds it) (timeout_phase (i_now it) s) eq_refl) as A.
-  rewrite E in A. simpl in A. rewrite A.
-  destruct (k_cmds (i_now it) k (i_cmds it) (k_timeout (i_now it) st)) as [[st2 n] halted]. cbn [fst snd] in *.
-  subst halted. destruct (has_shutdown (i_cmds it)) eqn:HS; cbn [negb].
-  - cbn [fst snd o_sent o_exited o_now]. repeat split; try reflexivity; try discriminate; [lia | exact A].
-  - destruct (rerun_phase (i_now it) s2) as [[s3 p_r] ev_r] eqn:E3.
-    destruct (RH eq_refl) as [R2 H2].
-    destruct (rk_rerun k (i_now it) s2 st2 s3 p_r ev_r R2 E3) as [R3 C3].
-    destruct (k_rerun (i_now it) st2) as [st3 m]. cbn [fst snd o_sent o_exited o_now] in *.
-    repeat split; try reflexivity.
-    + rewrite count_pkt_app. congruence.
-    + destruct (ip_phase_frame (i_now it) s3) as [_ [_ [_ [F4 _]]]]. rewrite F4.
-      unfold rerun_phase in E3. injection E3 as <- _ _. simpl.
-      pose proof A as A'. exact A'.
-    + destruct (ip_phase_frame (i_now it) s3) as [_ [F2 [F3 _]]]. eapply rk_frame; [exact F2 | exact F3 | exact R3].
-    + apply invh_ip. eapply invh_rerun; eassumption.
+  intros A D N r Hr HL. simpl in Hr, HL. apply in_app_or in Hr as [Hr|Hr].
+  - apply in_purge in Hr as [Hr Hk]. apply D; [exact Hr|]. rewrite <- (live_agree owners owners' k r A Hk). exact HL.
+  - rewrite (N r Hr) in HL. discriminate.
 Qed.
 
-Lemma k_iter_none k it st :
-  fst (fst (k_iter k it st)) = None -> snd (k_iter k it st) = 0%nat.
+Lemma purge_dead_cmd now c s :
+  dead_due now s ->
+  exec_cmd now c (purge_dead s)
+  = (purge_dead (fst (fst (exec_cmd now c s))), snd (fst (exec_cmd now c s)), snd (exec_cmd now c s))
+  /\ dead_due now (fst (fst (exec_cmd now c s))).
 Proof.
-  unfold k_iter. destruct (k_cmds _ _ _ _) as [[st2 n] halted]. destruct halted; [reflexivity|].
-  destruct st2 as [c|]; simpl; [|reflexivity].
-  destruct (_ && _); simpl; [discriminate | discriminate].
+  intros D. destruct c as [host nm cache timeout ch|host nm|secs|]; simpl.
+  - unfold exec_start. change (st_owners (purge_dead s)) with (st_owners s).
+    change (st_timers (purge_dead s)) with (st_timers s).
+    change (st_retrans (purge_dead s)) with (filter (rerun_live (st_owners s)) (st_retrans s)).
+    set (k := okey_of host nm). set (dl := option_map (sat_add now) timeout).
+    set (owners' := (k, mkOwner ch dl) :: remove_key k (st_owners s)).
+    pose proof (agree_cons_remove k (mkOwner ch dl) (st_owners s)) as A. fold owners' in A.
+    assert (Hnew : forall r, In r (requeue now owners' host nm (first_delay host cache) ch) ->
+                             rerun_live owners' r = true).
+    { intros r Hr. apply in_requeue in Hr as [-> _]. apply (live_of_lookup _ _ (mkOwner ch dl)).
+      unfold rkey. simpl. fold k. apply lookup_cons_same. }
+    destruct cache; cbn [fst snd].
+    + split.
+      * unfold purge_dead, set_sched. simpl. rewrite (filter_live_purge (st_owners s) owners' k _ A). reflexivity.
+      * rewrite <- (app_nil_r (purge k (st_retrans s))).
+        apply (dead_due_purge now k (st_owners s) owners' _ [] _ s A D). intros r [].
+    + split.
+      * unfold purge_dead, set_sched. simpl. rewrite filter_app.
+        rewrite (filter_live_purge (st_owners s) owners' k _ A).
+        rewrite (filter_true _ _ Hnew). reflexivity.
+      * apply (dead_due_purge now k (st_owners s) owners' _ _ _ s A D Hnew).
+  - unfold exec_stop. change (st_owners (purge_dead s)) with (st_owners s).
+    destruct (lookup (okey_of host nm) (st_owners s)) as [o|]; cbn [fst snd].
+    + change (st_timers (purge_dead s)) with (st_timers s).
+      change (st_retrans (purge_dead s)) with (filter (rerun_live (st_owners s)) (st_retrans s)).
+      pose proof (agree_remove (okey_of host nm) (st_owners s)) as A. split.
+      * unfold purge_dead, set_sched. simpl. rewrite (filter_live_purge (st_owners s) _ _ _ A). reflexivity.
+      * rewrite <- (app_nil_r (purge _ (st_retrans s))).
+        apply (dead_due_purge now _ (st_owners s) _ _ [] _ s A D). intros r [].
+    + auto.
+  - split; [reflexivity | exact D].
+  - split; [reflexivity|]. intros r [].
 Qed.
 
-(* ------------------------------------------------------------------ histories *)
-Definition no_hazard (tr : list out) : bool := forallb (fun o => negb (o_hazard o)) tr.
-
-Lemma run_dead s h : st_alive s = false -> run s h = [].
-Proof. destruct h; simpl; [reflexivity|]. intros ->. reflexivity. Qed.
-
-Lemma k_check_run k : forall h s st,
-  InvH s -> Rk k s st -> no_hazard (run s h) = true ->
-  k_check k h (run s h) st = true /\ k_silent k h (run s h) st = true.
+Lemma purge_dead_cmds now cmds : forall s,
+  dead_due now s ->
+  run_cmds now cmds (purge_dead s)
+  = (purge_dead (fst (fst (run_cmds now cmds s))), snd (fst (run_cmds now cmds s)), snd (run_cmds now cmds s))
+  /\ dead_due now (fst (fst (run_cmds now cmds s))).
 Proof.
-  induction h as [|it h IH]; intros s st H R NH; simpl; [auto|].
-  simpl in NH. destruct (st_alive s) eqn:A; [|auto].
-  destruct (iterate s it) as [s' o] eqn:E. simpl in NH. apply andb_true_iff in NH as [NH1 NH2].
-  apply negb_true_iff in NH1.
-  pose proof (rk_iterate k s it st H R) as RI. rewrite E in RI. cbn [fst snd] in RI.
-  destruct (RI NH1) as [C [X [_ [AL RH]]]].
-  pose proof (k_iter_none k it st) as KN.
-  destruct (k_iter k it st) as [[st' n] m]. cbn [fst snd] in *.
-  rewrite C, Nat.eqb_refl. simpl.
-  assert (Hsil : match st' with None => Nat.eqb (n + m) n | Some _ => true end = true).
-  { destruct st'; [reflexivity|]. rewrite (KN eq_refl). rewrite Nat.add_0_r. apply Nat.eqb_refl. }
-  rewrite Hsil. simpl.
-  rewrite X. destruct (has_shutdown (i_cmds it)); [auto|].
-  destruct (RH eq_refl) as [R' H']. apply IH; assumption.
+  induction cmds as [|c rest IH]; intros s D; simpl; [auto|].
+  destruct (purge_dead_cmd now c s D) as [E1 D1]. rewrite E1.
+  destruct (exec_cmd now c s) as [[s1 p1] e1]. cbn [fst snd] in *.
+  destruct (IH s1 D1) as [E2 D2]. rewrite E2.
+  destruct (run_cmds now rest s1) as [[s2 p2] e2]. cbn [fst snd] in *.
+  destruct c; cbn [fst snd]; auto.
 Qed.
 
-Lemma rk_init k t0 : Rk k (init t0) None.
-Proof. rewrite init_spec. reflexivity. Qed.
+Lemma filter_notdue_live now owners R :
+  (forall r, In r R -> rerun_live owners r = false -> r_time r <= now) ->
+  filter (fun r => negb (due now r)) (filter (rerun_live owners) R) = filter (fun r => negb (due now r)) R.
+Proof.
+  intros D. rewrite filter_comm. apply filter_true. intros r Hr. apply filter_In in Hr as [Hr Hn].
+  destruct (rerun_live owners r) eqn:E; [reflexivity|]. exfalso.
+  unfold due in Hn. apply negb_true_iff, N.leb_gt in Hn. specialize (D r Hr E). lia.
+Qed.
 
-Lemma invh_init t0 : InvH (init t0).
-Proof. rewrite init_spec. intros r []. Qed.
+Lemma filter_idem {A} (Q : A -> bool) l : filter Q (filter Q l) = filter Q l.
+Proof. apply filter_true. intros x Hx. apply filter_In in Hx as [_ Hx]. exact Hx. Qed.
+
+Lemma purge_dead_rerun now s : dead_due now s -> rerun_phase now (purge_dead s) = rerun_phase now s.
+Proof.
+  intros D. unfold rerun_phase.
+  change (st_owners (purge_dead s)) with (st_owners s).
+  change (st_timers (purge_dead s)) with (st_timers s).
+  change (st_retrans (purge_dead s)) with (filter (rerun_live (st_owners s)) (st_retrans s)).
+  rewrite (filter_notdue_live now _ _ D).
+  rewrite (filter_comm (due now) (rerun_live (st_owners s))), filter_idem. reflexivity.
+Qed.
+
+Definition iterate_p (s : state) (it : iter) : state * out :=
+  let now := i_now it in
+  let ev_t := timeout_events now (st_owners s) in
+  let '(s2, p_c, ev_c) := run_cmds now (i_cmds it) (timeout_phase_p now s) in
+  if st_alive s2 then
+    let '(s3, p_r, ev_r) := rerun_phase0 now s2 in
+    let s4 := ip_phase now s3 in
+    (s4, mkOut now (p_c ++ p_r) (ev_t ++ ev_c ++ ev_r ++ closed_events s (i_cmds it) s4)
+               (min_list (st_timers s4)) false)
+  else
+    (s2, mkOut now p_c (ev_t ++ ev_c ++ closed_events s (i_cmds it) s2) None true).
+
+Lemma dead_due_timeout now s : InvH s -> dead_due now (timeout_phase now s).
+Proof.
+  intros H r Hr HL. simpl in Hr, HL. destruct (H r Hr) as [o [L [_ D]]].
+  unfold rerun_live in HL. apply orb_false_iff in HL as [_ HL].
+  destruct (expired now (rkey r, o)) eqn:E.
+  - unfold expired in E. simpl in E. destruct (ow_deadline o) as [d|]; [|discriminate].
+    rewrite resolver_expired_pinned in E. apply N.leb_le in E. specialize (D d eq_refl). lia.
+  - rewrite (lookup_filter_keep _ _ _ o L) in HL; [discriminate|]. rewrite E. reflexivity.
+Qed.
+
+Lemma refs_purge_dead_alive s : st_alive (purge_dead s) = st_alive s.
+Proof. reflexivity. Qed.
+
+Lemma run_cmds_dead now cmds : forall s,
+  st_alive s = true -> st_alive (fst (fst (run_cmds now cmds s))) = false ->
+  st_retrans (fst (fst (run_cmds now cmds s))) = [] /\ st_owners (fst (fst (run_cmds now cmds s))) = [].
+Proof.
+  induction cmds as [|c rest IH]; intros s A D; simpl in *; [congruence|].
+  pose proof (alive_exec_cmd now c s) as A1.
+  destruct (exec_cmd now c s) as [[s1 p1] e1] eqn:E1. cbn [fst] in A1.
+  destruct c; try (specialize (IH s1); destruct (run_cmds now rest s1) as [[s2 p2] e2]; cbn [fst] in *;
+                   apply IH; [rewrite A1; exact A | exact D]).
+  simpl in E1. injection E1 as <- _ _. simpl. auto.
+Qed.
+
+Lemma rerun0_purge_dead now s : rerun_phase0 now (purge_dead s) = rerun_phase now (purge_dead s).
+Proof.
+  unfold rerun_phase, rerun_phase0.
+  rewrite (filter_true (rerun_live (st_owners (purge_dead s))) (filter (due now) (st_retrans (purge_dead s)))); [reflexivity|].
+  intros r Hr. apply filter_In in Hr as [Hr _]. simpl in Hr. apply filter_In in Hr as [_ Hr]. exact Hr.
+Qed.
+
+Lemma iterate_eq s it : InvH s -> iterate s it = iterate_p s it.
+Proof.
+  intros H. unfold iterate, iterate_p, timeout_phase_p.
+  pose proof (dead_due_timeout (i_now it) s H) as D1.
+  destruct (purge_dead_cmds (i_now it) (i_cmds it) _ D1) as [E2 D2]. rewrite E2.
+  pose proof (run_cmds_dead (i_now it) (i_cmds it) (timeout_phase (i_now it) s) eq_refl) as RD.
+  destruct (run_cmds (i_now it) (i_cmds it) (timeout_phase (i_now it) s)) as [[s2 p_c] ev_c]. cbn [fst snd] in *.
+  rewrite refs_purge_dead_alive. destruct (st_alive s2) eqn:A.
+  - rewrite rerun0_purge_dead, (purge_dead_rerun _ _ D2). reflexivity.
+  - destruct (RD eq_refl) as [R0 O0].
+    assert (purge_dead s2 = s2) as ->; [|reflexivity].
+    destruct s2. simpl in *. subst. reflexivity.
+Qed.
 
 Lemma iterate_shape s it :
   o_now (snd (iterate s it)) = i_now it
@@ -505,6 +676,138 @@ Proof.
     destruct (ip_phase_frame (i_now it) s3) as [_ [_ [_ [F4 _]]]]. rewrite F4.
     unfold rerun_phase in E3. injection E3 as <- _ _. simpl. auto.
 Qed.
+
+(* the invariants that hold between iterations, together *)
+Record Good (s : state) : Prop := mkGood { good_inv : Inv s; good_invh : InvH s; good_invb : InvB s }.
+
+Definition wf_cmds (cmds : list cmd) : Prop := forallb wf_cmd cmds = true.
+
+Lemma invh_cmds now cmds : forall s,
+  InvH s -> has_shutdown cmds = false -> InvH (fst (fst (run_cmds now cmds s))).
+Proof.
+  induction cmds as [|c rest IH]; intros s H HS; simpl; [exact H|].
+  assert (Hc : c <> CShutdown). { intros ->. discriminate. }
+  pose proof (invh_cmd now c s H Hc) as H1.
+  destruct (exec_cmd now c s) as [[s1 p1] e1]. simpl in H1.
+  assert (HS' : has_shutdown rest = false). { unfold has_shutdown in *. simpl in HS. destruct c; try exact HS. congruence. }
+  specialize (IH s1 H1 HS'). destruct (run_cmds now rest s1) as [[s2 p2] e2]. simpl in IH.
+  destruct c; try exact IH. congruence.
+Qed.
+
+Lemma invb_cmds now cmds : forall s,
+  InvB s -> wf_cmds cmds -> InvB (fst (fst (run_cmds now cmds s))).
+Proof.
+  induction cmds as [|c rest IH]; intros s B W; simpl; [exact B|].
+  unfold wf_cmds in W. simpl in W. apply andb_true_iff in W as [W1 W2].
+  pose proof (invb_cmd now c s B W1) as B1.
+  destruct (exec_cmd now c s) as [[s1 p1] e1]. simpl in B1.
+  specialize (IH s1 B1 W2). destruct (run_cmds now rest s1) as [[s2 p2] e2]. simpl in IH.
+  destruct c; try exact IH. exact B1.
+Qed.
+
+Lemma good_iterate s it :
+  Good s -> (i_cmds it = [] \/ i_now it < u64_max) -> wf_cmds (i_cmds it) ->
+  has_shutdown (i_cmds it) = false -> Good (fst (iterate s it)).
+Proof.
+  intros [I H B] Hnow W HS.
+  destruct (iterate_shape s it) as [_ [_ AL]]. rewrite HS in AL. simpl in AL.
+  constructor.
+  - apply iterate_inv; assumption.
+  - rewrite (iterate_eq s it H). unfold iterate_p.
+    pose proof (invh_timeout (i_now it) s H B (inv_own s I)) as H1.
+    pose proof (invh_cmds (i_now it) (i_cmds it) _ H1 HS) as H2.
+    pose proof (alive_run_cmds (i_now it) (i_cmds it) (timeout_phase_p (i_now it) s) eq_refl) as A.
+    destruct (run_cmds (i_now it) (i_cmds it) (timeout_phase_p (i_now it) s)) as [[s2 p_c] ev_c].
+    cbn [fst snd] in *. rewrite A, HS. cbn [negb].
+    destruct (rerun_phase0 (i_now it) s2) as [[s3 p_r] ev_r] eqn:E3. cbn [fst].
+    apply invh_ip. eapply invh_rerun; eassumption.
+  - rewrite (iterate_eq s it H). unfold iterate_p.
+    pose proof (invb_cmds (i_now it) (i_cmds it) _ (invb_timeout (i_now it) s B) W) as B2.
+    destruct (run_cmds (i_now it) (i_cmds it) (timeout_phase_p (i_now it) s)) as [[s2 p_c] ev_c].
+    cbn [fst snd] in *. destruct (st_alive s2); [|exact B2].
+    destruct (rerun_phase0 (i_now it) s2) as [[s3 p_r] ev_r] eqn:E3. cbn [fst].
+    unfold rerun_phase0 in E3. injection E3 as <- _ _.
+    destruct (ip_phase_frame (i_now it) (set_sched s2 (map r_time (flat_map (rerun_one (i_now it) (st_owners s2)) (filter (due (i_now it)) (st_retrans s2))) ++ st_timers s2) (filter (fun r => negb (due (i_now it) r)) (st_retrans s2) ++ flat_map (rerun_one (i_now it) (st_owners s2)) (filter (due (i_now it)) (st_retrans s2))) (st_owners s2))) as [_ [_ [F3 _]]].
+    unfold InvB. rewrite F3. exact B2.
+Qed.
+
+Lemma rk_iterate k s it st :
+  Good s -> Rk k s st ->
+  count_pkt k (o_sent (snd (iterate s it))) = (snd (fst (k_iter k it st)) + snd (k_iter k it st))%nat
+  /\ o_exited (snd (iterate s it)) = has_shutdown (i_cmds it)
+  /\ o_now (snd (iterate s it)) = i_now it
+  /\ st_alive (fst (iterate s it)) = negb (has_shutdown (i_cmds it))
+  /\ (has_shutdown (i_cmds it) = false -> Rk k (fst (iterate s it)) (fst (fst (k_iter k it st)))).
+Proof.
+  intros [I H B] R. rewrite (iterate_eq s it H).
+  pose proof (rk_timeout k (i_now it) s st R B (inv_own s I)) as R1.
+  pose proof (invh_timeout (i_now it) s H B (inv_own s I)) as H1.
+  unfold iterate_p, k_iter.
+  destruct (run_cmds (i_now it) (i_cmds it) (timeout_phase_p (i_now it) s)) as [[s2 p_c] ev_c] eqn:E.
+  destruct (rk_cmds k (i_now it) (i_cmds it) _ _ s2 p_c ev_c R1 H1 E) as [C [S RH]].
+  pose proof (alive_run_cmds (i_now it) (i_cmds it) (timeout_phase_p (i_now it) s) eq_refl) as A.
+  rewrite E in A. simpl in A. rewrite A.
+  destruct (k_cmds (i_now it) k (i_cmds it) (k_timeout (i_now it) st)) as [[st2 n] halted]. cbn [fst snd] in *.
+  subst halted. destruct (has_shutdown (i_cmds it)) eqn:HS; cbn [negb].
+  - cbn [fst snd o_sent o_exited o_now]. repeat split; try reflexivity; try discriminate; [lia | exact A].
+  - destruct (rerun_phase0 (i_now it) s2) as [[s3 p_r] ev_r] eqn:E3.
+    destruct (RH eq_refl) as [R2 H2].
+    destruct (rk_rerun k (i_now it) s2 st2 s3 p_r ev_r R2 E3) as [R3 C3].
+    destruct (k_rerun (i_now it) st2) as [st3 m]. cbn [fst snd o_sent o_exited o_now] in *.
+    repeat split; try reflexivity.
+    + rewrite count_pkt_app. congruence.
+    + destruct (ip_phase_frame (i_now it) s3) as [_ [_ [_ [F4 _]]]]. rewrite F4.
+      unfold rerun_phase0 in E3. injection E3 as <- _ _. simpl.
+      pose proof A as A'. exact A'.
+    + intros _. destruct (ip_phase_frame (i_now it) s3) as [_ [F2 [F3 _]]]. eapply rk_frame; [exact F2 | exact F3 | exact R3].
+Qed.
+
+Lemma k_iter_none k it st :
+  fst (fst (k_iter k it st)) = None -> snd (k_iter k it st) = 0%nat.
+Proof.
+  unfold k_iter. destruct (k_cmds _ _ _ _) as [[st2 n] halted]. destruct halted; [reflexivity|].
+  destruct st2 as [c|]; simpl; [|reflexivity].
+  destruct (_ && _); simpl; [discriminate | discriminate].
+Qed.
+
+(* ------------------------------------------------------------------ histories *)
+Definition wf_cmds_hist (h : list iter) : Prop := Forall (fun it => wf_cmds (i_cmds it)) h.
+
+Lemma run_dead s h : st_alive s = false -> run s h = [].
+Proof. destruct h; simpl; [reflexivity|]. intros ->. reflexivity. Qed.
+
+Lemma run_cons s it h :
+  st_alive s = true -> run s (it :: h) = snd (iterate s it) :: run (fst (iterate s it)) h.
+Proof. intros A. simpl. rewrite A. destruct (iterate s it). reflexivity. Qed.
+
+Lemma final_cons s it h : st_alive s = true -> final s (it :: h) = final (fst (iterate s it)) h.
+Proof. intros A. simpl. rewrite A. reflexivity. Qed.
+
+Lemma k_check_run k : forall h s st,
+  Good s -> Rk k s st -> in_range h -> wf_cmds_hist h ->
+  k_check k h (run s h) st = true /\ k_silent k h (run s h) st = true.
+Proof.
+  induction h as [|it h IH]; intros s st G R Rg W; [simpl; auto|].
+  destruct (st_alive s) eqn:A; [|rewrite run_dead by exact A; simpl; auto].
+  rewrite run_cons by exact A. cbn [k_check k_silent].
+  inversion Rg as [|x xs Rg1 Rg2]; subst. inversion W as [|y ys W1 W2]; subst.
+  destruct (rk_iterate k s it st G R) as [C [X [_ [AL RH]]]].
+  pose proof (k_iter_none k it st) as KN.
+  pose proof (good_iterate s it G (or_intror Rg1) W1) as GI.
+  destruct (k_iter k it st) as [[st' n] m]. cbn [fst snd] in *.
+  rewrite C, Nat.eqb_refl. simpl.
+  assert (Hsil : match st' with None => Nat.eqb (n + m) n | Some _ => true end = true).
+  { destruct st'; [reflexivity|]. rewrite (KN eq_refl). rewrite Nat.add_0_r. apply Nat.eqb_refl. }
+  rewrite Hsil. simpl.
+  rewrite X. destruct (has_shutdown (i_cmds it)); [auto|].
+  apply IH; auto.
+Qed.
+
+Lemma rk_init k t0 : Rk k (init t0) None.
+Proof. rewrite init_spec. reflexivity. Qed.
+
+Lemma invh_init t0 : InvH (init t0).
+Proof. rewrite init_spec. intros r []. Qed.
 
 Lemma shape_ok_run : forall h s, st_alive s = true -> shape_ok h (run s h) = true.
 Proof.
@@ -565,89 +868,35 @@ Proof.
   destruct (key_of_pkt_shaped p (HS p Hp)) as [k ->]. reflexivity.
 Qed.
 
-Lemma hazard_free_no_hazard t0 h : hazard_free t0 h = no_hazard (run (init t0) h).
-Proof. reflexivity. Qed.
+Lemma invb_init t0 : InvB (init t0).
+Proof. rewrite init_spec. intros e []. Qed.
+
+Lemma good_init t0 : Good (init t0).
+Proof. constructor; [apply inv_init | apply invh_init | apply invb_init]. Qed.
+
+Lemma wf_hist_in_range t0 h : wf_hist t0 h = true -> in_range h.
+Proof.
+  unfold wf_hist. intros H. apply andb_true_iff in H as [_ H]. rewrite forallb_forall in H.
+  apply Forall_forall. intros it Hit. specialize (H it Hit). apply andb_true_iff in H as [H _].
+  apply N.ltb_lt in H. unfold u64_max. lia.
+Qed.
+
+Lemma wf_hist_cmds t0 h : wf_hist t0 h = true -> wf_cmds_hist h.
+Proof.
+  unfold wf_hist. intros H. apply andb_true_iff in H as [_ H]. rewrite forallb_forall in H.
+  apply Forall_forall. intros it Hit. specialize (H it Hit). apply andb_true_iff in H as [_ H].
+  unfold wf_cmds. apply forallb_forall. intros c Hc. rewrite forallb_forall in H.
+  specialize (H c Hc). apply andb_true_iff in H as [H _]. exact H.
+Qed.
 
 (* C19: the conclusion of the theorem in Props/C19.v *)
-Lemma chk_C19_model t0 h : hazard_free t0 h = true -> chk_C19 t0 h (model_run t0 h) = true.
+Lemma chk_C19_model t0 h : wf_hist t0 h = true -> chk_C19 t0 h (model_run t0 h) = true.
 Proof.
-  intros HF. unfold chk_C19, model_run. cbn [o_sent init_out].
+  intros W. unfold chk_C19, model_run. cbn [o_sent init_out].
   rewrite shape_ok_run by (rewrite init_spec; reflexivity). rewrite pkts_shaped_run. simpl.
   apply forallb_forall. intros k _.
-  apply (k_check_run k h (init t0) None (invh_init t0) (rk_init k t0) HF).
-Qed.
-
-(* ------------------------------------------------------------------ timely histories are hazard free *)
-Lemma timely_no_hazard s now :
-  Inv s -> InvH s -> (forall w, min_list (st_timers s) = Some w -> now <= w) ->
-  hazard now (st_owners s) (st_retrans s) = false.
-Proof.
-  intros I H T. destruct (hazard now (st_owners s) (st_retrans s)) eqn:E; [|reflexivity].
-  exfalso. unfold hazard in E. apply existsb_exists in E as [e [He E]].
-  apply andb_true_iff in E as [Ex E]. apply existsb_exists in E as [r [Hr E]]. apply okey_eqb_eq in E.
-  destruct (H r Hr) as [o [L [_ D]]].
-  assert (Lo : lookup (fst e) (st_owners s) = Some (snd e)).
-  { apply In_lookup; [apply (inv_own s I)|]. destruct e; exact He. }
-  rewrite E, Lo in L. injection L as <-.
-  unfold expired in Ex. destruct (ow_deadline (snd e)) as [d|] eqn:Ed; [|discriminate].
-  rewrite resolver_expired_pinned in Ex. apply N.leb_le in Ex.
-  specialize (D d eq_refl).
-  destruct (inv_ret s I r Hr) as [_ [_ Ht]].
-  destruct (min_list (st_timers s)) as [w|] eqn:Em.
-  - pose proof (min_list_le _ _ _ Em Ht). specialize (T w eq_refl). lia.
-  - apply min_list_None in Em. rewrite Em in Ht. contradiction.
-Qed.
-
-Lemma invh_cmds now cmds : forall s,
-  InvH s -> has_shutdown cmds = false -> InvH (fst (fst (run_cmds now cmds s))).
-Proof.
-  induction cmds as [|c rest IH]; intros s H HS; simpl; [exact H|].
-  assert (Hc : c <> CShutdown). { intros ->. discriminate. }
-  pose proof (invh_cmd now c s H Hc) as H1.
-  destruct (exec_cmd now c s) as [[s1 p1] e1]. simpl in H1.
-  assert (HS' : has_shutdown rest = false). { unfold has_shutdown in *. simpl in HS. destruct c; try exact HS. congruence. }
-  specialize (IH s1 H1 HS'). destruct (run_cmds now rest s1) as [[s2 p2] e2]. simpl in IH.
-  destruct c; try exact IH. congruence.
-Qed.
-
-Lemma invh_iterate s it :
-  InvH s -> o_hazard (snd (iterate s it)) = false -> has_shutdown (i_cmds it) = false ->
-  InvH (fst (iterate s it)).
-Proof.
-  intros H Hz HS. rewrite o_hazard_iterate in Hz.
-  pose proof (invh_timeout (i_now it) s H Hz) as H1.
-  pose proof (invh_cmds (i_now it) (i_cmds it) _ H1 HS) as H2.
-  pose proof (alive_run_cmds (i_now it) (i_cmds it) (timeout_phase (i_now it) s) eq_refl) as A.
-  unfold iterate.
-  destruct (run_cmds (i_now it) (i_cmds it) (timeout_phase (i_now it) s)) as [[s2 p_c] ev_c] eqn:E.
-  cbn [fst snd] in *. rewrite A, HS. cbn [negb].
-  destruct (rerun_phase (i_now it) s2) as [[s3 p_r] ev_r] eqn:E3. cbn [fst].
-  apply invh_ip. eapply invh_rerun; eassumption.
-Qed.
-
-Lemma timely_hazard_free : forall h s,
-  Inv s -> InvH s -> in_range h -> timely_from s h = true -> no_hazard (run s h) = true.
-Proof.
-  induction h as [|it h IH]; intros s I H R T; simpl; [reflexivity|].
-  simpl in T. destruct (st_alive s) eqn:A; [|reflexivity].
-  apply andb_true_iff in T as [T1 T2]. inversion R as [|x xs R1 R2]; subst.
-  assert (Hz : hazard (i_now it) (st_owners s) (st_retrans s) = false).
-  { apply timely_no_hazard; [exact I | exact H|]. intros w Ew. rewrite Ew in T1. apply N.leb_le. exact T1. }
-  pose proof (o_hazard_iterate s it) as OH. rewrite Hz in OH.
-  pose proof (invh_iterate s it H OH) as HI.
-  pose proof (iterate_inv s it I (or_intror R1)) as II.
-  destruct (iterate_shape s it) as [_ [_ AL]].
-  destruct (iterate s it) as [s' o] eqn:E. cbn [fst snd] in *.
-  simpl. rewrite OH. simpl.
-  destruct (has_shutdown (i_cmds it)); simpl in AL.
-  - rewrite run_dead by exact AL. reflexivity.
-  - apply IH; auto.
-Qed.
-
-Lemma timely_is_hazard_free t0 h :
-  in_range h -> timely t0 h = true -> hazard_free t0 h = true.
-Proof.
-  intros R T. apply timely_hazard_free; [apply inv_init | apply invh_init | exact R | exact T].
+  apply (k_check_run k h (init t0) None (good_init t0) (rk_init k t0)
+           (wf_hist_in_range t0 h W) (wf_hist_cmds t0 h W)).
 Qed.
 
 (* ------------------------------------------------------------------ the back-off ladder *)
@@ -662,8 +911,7 @@ Proof.
 Qed.
 
 Record Lad (k : wkey) (s : state) (c : chain) : Prop := mkLad {
-  lad_inv : Inv s;
-  lad_invh : InvH s;
+  lad_good : Good s;
   lad_alive : st_alive s = true;
   lad_rk : Rk k s (Some c);
   lad_nodl : c_deadline c = None;
@@ -680,12 +928,12 @@ Lemma lad_step k s c :
        else count_pkt k (o_sent (snd (iterate s (mkIter w [])))) = 0%nat
             /\ Lad k (fst (iterate s (mkIter w []))) c.
 Proof.
-  intros [I H A R ND CL TM].
+  intros [G A R ND CL TM]. pose proof (good_inv s G) as I.
   destruct c as [last dl dd]. simpl in ND. subst dd.
   pose proof R as R0. destruct R0 as [Hd [ch [L P]]]. unfold chain_goes_on in P. cbn [c_deadline] in P.
   assert (Hin : In (chain_rerun k (mkChain last dl None) ch) (st_retrans s)).
-  { assert (In (chain_rerun k (mkChain last dl None) ch) (pend k (st_retrans s))) by (rewrite P; left; reflexivity).
-    apply filter_In in H0 as [H0 _]. exact H0. }
+  { assert (Hp : In (chain_rerun k (mkChain last dl None) ch) (pend k (st_retrans s))) by (rewrite P; left; reflexivity).
+    apply filter_In in Hp as [Hp _]. exact Hp. }
   destruct (inv_ret s I _ Hin) as [_ [_ Ht]]. cbn [chain_rerun r_time] in Ht.
   destruct (min_list (st_timers s)) as [w|] eqn:Em;
     [|apply min_list_None in Em; rewrite Em in Ht; contradiction].
@@ -694,13 +942,10 @@ Proof.
   pose proof (TM w (min_list_In _ _ Em)) as Hgt.
   split; [exact Hgt|]. split; [exact Hle|].
   set (it := mkIter w []).
-  assert (Hz : o_hazard (snd (iterate s it)) = false).
-  { rewrite o_hazard_iterate. apply timely_no_hazard; [exact I | exact H|].
-    intros w' Ew. rewrite Em in Ew. injection Ew as <-. simpl. lia. }
-  destruct (rk_iterate k s it _ H R Hz) as [C [_ [Nw [AL RH]]]].
-  destruct (RH eq_refl) as [R' H'].
-  assert (II : Inv (fst (iterate s it))).
-  { apply iterate_inv; [exact I | left; reflexivity | rewrite AL; reflexivity]. }
+  destruct (rk_iterate k s it _ G R) as [C [_ [Nw [AL RH]]]].
+  pose proof (RH eq_refl) as R'.
+  assert (GI : Good (fst (iterate s it))).
+  { apply good_iterate; [exact G | left; reflexivity | reflexivity | reflexivity]. }
   destruct (iterate_timers s it I (or_introl eq_refl)) as [CK TF]; [rewrite AL; reflexivity|].
   split; [exact Nw|].
   assert (Hki : k_iter k it (Some (mkChain last dl None)) =
@@ -753,13 +998,6 @@ Qed.
 Lemma ktimes_app k a b : ktimes k (a ++ b) = ktimes k a ++ ktimes k b.
 Proof. apply flat_map_app. Qed.
 
-Lemma run_cons s it h :
-  st_alive s = true -> run s (it :: h) = snd (iterate s it) :: run (fst (iterate s it)) h.
-Proof. intros A. simpl. rewrite A. destruct (iterate s it). reflexivity. Qed.
-
-Lemma final_cons s it h : st_alive s = true -> final s (it :: h) = final (fst (iterate s it)) h.
-Proof. intros A. simpl. rewrite A. reflexivity. Qed.
-
 Lemma silent_hist_S s n w :
   st_alive s = true -> min_list (st_timers s) = Some w ->
   silent_hist s (S n) = mkIter w [] :: silent_hist (fst (iterate s (mkIter w []))) n.
@@ -786,7 +1024,7 @@ Proof.
       rewrite ktimes_cons, C, Nw. cbn [repeat ktimes flat_map app]. split; [congruence|].
       rewrite <- Ew. exact L'.
     + apply N.eqb_neq in Ew. destruct Hcase as [C L'].
-      destruct (iterate_timers s (mkIter w []) (lad_inv k s c L) (or_introl eq_refl)) as [CK _].
+      destruct (iterate_timers s (mkIter w []) (good_inv s (lad_good k s c L)) (or_introl eq_refl)) as [CK _].
       { apply (lad_alive _ _ _ L'). }
       destruct (IH (fst (iterate s (mkIter w []))) c L') as [n [KT LF]].
       { rewrite CK. cbn [i_now]. lia. }
@@ -815,34 +1053,32 @@ Proof.
     auto.
 Qed.
 
-Lemma no_hazard_app a b : no_hazard (a ++ b) = no_hazard a && no_hazard b.
-Proof. apply forallb_app. Qed.
-
-(* a reachable live state is related to SOME specification state of every question *)
+(* a reachable live state is Good and related to SOME specification state of every question *)
 Lemma rk_final k : forall h s st,
-  InvH s -> Rk k s st -> no_hazard (run s h) = true -> st_alive (final s h) = true ->
-  InvH (final s h) /\ exists st', Rk k (final s h) st'.
+  Good s -> Rk k s st -> in_range h -> wf_cmds_hist h -> st_alive (final s h) = true ->
+  Good (final s h) /\ exists st', Rk k (final s h) st'.
 Proof.
-  induction h as [|it h IH]; intros s st H R NH A.
+  induction h as [|it h IH]; intros s st G R Rg W A.
   - simpl. eauto.
   - destruct (st_alive s) eqn:As; [|rewrite final_dead in A by exact As; congruence].
-    rewrite run_cons in NH by exact As. rewrite final_cons in * by exact As.
-    simpl in NH. apply andb_true_iff in NH as [NH1 NH2]. apply negb_true_iff in NH1.
-    destruct (rk_iterate k s it st H R NH1) as [_ [_ [_ [AL RH]]]].
+    rewrite final_cons in * by exact As.
+    inversion Rg as [|x xs Rg1 Rg2]; subst. inversion W as [|y ys W1 W2]; subst.
+    destruct (rk_iterate k s it st G R) as [_ [_ [_ [AL RH]]]].
+    pose proof (good_iterate s it G (or_intror Rg1) W1) as GI.
     destruct (has_shutdown (i_cmds it)).
     + simpl in AL. rewrite final_dead in A by exact AL. congruence.
-    + destruct (RH eq_refl) as [R' H']. eapply IH; eassumption.
+    + eapply IH; eauto.
 Qed.
 
 Lemma lad_start host nm ch t1 s st :
-  Inv s -> InvH s -> Rk (host, nm) s st -> t1 < u64_max ->
-  o_hazard (snd (iterate s (mkIter t1 [CStart host nm false None ch]))) = false ->
+  Good s -> Rk (host, nm) s st -> t1 < u64_max -> wf_cmd (CStart host nm false None ch) = true ->
   count_pkt (host, nm) (o_sent (snd (iterate s (mkIter t1 [CStart host nm false None ch])))) = 1%nat
   /\ Lad (host, nm) (fst (iterate s (mkIter t1 [CStart host nm false None ch]))) (mkChain t1 1 None).
 Proof.
-  intros I H R Ht Hz. set (it := mkIter t1 [CStart host nm false None ch]).
-  destruct (rk_iterate (host, nm) s it st H R Hz) as [C [_ [_ [AL RH]]]].
-  destruct (RH eq_refl) as [R' H'].
+  intros G R Ht Wc. set (it := mkIter t1 [CStart host nm false None ch]).
+  pose proof (good_inv s G) as I.
+  destruct (rk_iterate (host, nm) s it st G R) as [C [_ [_ [AL RH]]]].
+  pose proof (RH eq_refl) as R'.
   assert (Hk : k_iter (host, nm) it st = (Some (mkChain t1 1 None), 1%nat, 0%nat)).
   { unfold k_iter, it. cbn [i_now i_cmds k_cmds k_cmd]. unfold wkey_okey. cbn [fst snd].
     rewrite okey_eqb_refl, beq_refl. cbn [negb andb option_map].
@@ -852,7 +1088,8 @@ Proof.
   assert (AL' : st_alive (fst (iterate s it)) = true) by exact AL.
   destruct (iterate_timers s it I (or_intror Ht) AL') as [CK TF].
   constructor; auto.
-  - apply iterate_inv; auto.
+  - apply good_iterate; [exact G | right; exact Ht | | reflexivity].
+    unfold wf_cmds, it. cbn [i_cmds forallb]. rewrite Wc. reflexivity.
   - rewrite CK. unfold chain_due. simpl. lia.
   - intros t Hti. rewrite CK. destruct (TF t Hti) as [Hl|[Hf _]]; [exact Hl | discriminate].
 Qed.
@@ -860,20 +1097,19 @@ Qed.
 (* C19 backoff_sequence, model level *)
 Lemma backoff_sequence_model t0 h host nm ch t1 j :
   let it := mkIter t1 [CStart host nm false None ch] in
-  in_range (h ++ [it]) -> hazard_free t0 (h ++ [it]) = true ->
+  wf_hist t0 (h ++ [it]) = true ->
   st_alive (final (init t0) h) = true ->
   let s1 := final (init t0) (h ++ [it]) in
   ktimes (host, nm) (run (final (init t0) h) [it]) = [t1]
   /\ exists n, ktimes (host, nm) (run s1 (silent_hist s1 n)) = map (fun i => t1 + ladder i) (seq 1 j).
 Proof.
-  intros it R HF A s1. subst s1 it.
-  rewrite hazard_free_no_hazard, run_app, no_hazard_app in HF. apply andb_true_iff in HF as [HF1 HF2].
+  intros it W A s1. subst s1 it.
+  pose proof (wf_hist_in_range _ _ W) as R. pose proof (wf_hist_cmds _ _ W) as WC.
   apply Forall_app in R as [R1 R2]. inversion R2 as [|x xs Rt _]; subst. cbn [i_now] in Rt.
-  destruct (rk_final (host, nm) h (init t0) None (invh_init t0) (rk_init _ t0) HF1 A) as [H [st R]].
-  pose proof (inv_final h (init t0) (inv_init t0) R1 A) as I.
-  rewrite run_cons in HF2 by exact A. cbn [run no_hazard forallb] in HF2.
-  rewrite andb_true_r in HF2. apply negb_true_iff in HF2.
-  destruct (lad_start host nm ch t1 _ st I H R Rt HF2) as [C L].
+  apply Forall_app in WC as [WC1 WC2]. inversion WC2 as [|y ys Wt _]; subst.
+  unfold wf_cmds in Wt. cbn [i_cmds forallb] in Wt. rewrite andb_true_r in Wt.
+  destruct (rk_final (host, nm) h (init t0) None (good_init t0) (rk_init _ t0) R1 WC1 A) as [G [st R]].
+  destruct (lad_start host nm ch t1 _ st G R Rt Wt) as [C L].
   split.
   - rewrite run_cons by exact A. cbn [run]. rewrite ktimes_cons, C.
     destruct (iterate_shape (final (init t0) h) (mkIter t1 [CStart host nm false None ch])) as [Nw _].
@@ -883,19 +1119,6 @@ Proof.
 Qed.
 
 (* ------------------------------------------------------------------ statements used by Props/C19.v *)
-Lemma wf_hist_in_range t0 h : wf_hist t0 h = true -> in_range h.
-Proof.
-  unfold wf_hist. intros H. apply andb_true_iff in H as [_ H]. rewrite forallb_forall in H.
-  apply Forall_forall. intros it Hit. specialize (H it Hit). apply andb_true_iff in H as [H _].
-  apply N.ltb_lt in H. unfold u64_max. lia.
-Qed.
-
-Lemma chk_C19_timely t0 h :
-  wf_hist t0 h = true -> timely t0 h = true -> chk_C19 t0 h (model_run t0 h) = true.
-Proof.
-  intros W T. apply chk_C19_model. apply timely_is_hazard_free; [eapply wf_hist_in_range; exact W | exact T].
-Qed.
-
 (* a scheduled (non-start) query leaves only when the gap since the previous query of the
    search has reached the scheduled delay *)
 Lemma k_rerun_gap now c st' :
@@ -912,17 +1135,6 @@ Lemma single_chain t0 h :
   NoDup (map rkey (st_retrans (final (init t0) h))).
 Proof.
   intros W A. apply inv_one. apply reachable_inv; [eapply wf_hist_in_range; exact W | exact A].
-Qed.
-
-Lemma backoff_sequence_wf t0 h host nm ch t1 j :
-  let it := mkIter t1 [CStart host nm false None ch] in
-  wf_hist t0 (h ++ [it]) = true -> hazard_free t0 (h ++ [it]) = true ->
-  st_alive (final (init t0) h) = true ->
-  let s1 := final (init t0) (h ++ [it]) in
-  ktimes (host, nm) (run (final (init t0) h) [it]) = [t1]
-  /\ exists n, ktimes (host, nm) (run s1 (silent_hist s1 n)) = map (fun i => t1 + ladder i) (seq 1 j).
-Proof.
-  intros it W. apply backoff_sequence_model. eapply wf_hist_in_range. exact W.
 Qed.
 
 (* ================================================================== C13: channels *)
@@ -1038,17 +1250,20 @@ Proof.
 Qed.
 
 Lemma rc_timeout ch now s cs :
-  Rc ch s cs -> NoDup (map fst (st_owners s)) -> hazard now (st_owners s) (st_retrans s) = false ->
-  Rc ch (timeout_phase now s) (fst (c_timeout now cs))
+  Rc ch s cs -> InvB s -> NoDup (map fst (st_owners s)) ->
+  Rc ch (timeout_phase_p now s) (fst (c_timeout now cs))
   /\ events_on ch (timeout_events now (st_owners s)) = snd (c_timeout now cs).
 Proof.
-  intros R ND Hz. rewrite events_on_timeouts.
+  intros R B ND. rewrite events_on_timeouts.
+  assert (Hsubr : forall r, In r (st_retrans (timeout_phase_p now s)) -> In r (st_retrans s)).
+  { intros r Hr. simpl in Hr. apply filter_In in Hr as [Hr _]. exact Hr. }
   assert (Hother : ~ In ch (refs s) ->
-     ~ In ch (refs (timeout_phase now s))
+     ~ In ch (refs (timeout_phase_p now s))
      /\ flat_map (fun e : okey * owner => if (ow_ch (snd e) =? ch) && expired now e
                           then [ETimeout (snd (fst e)); EStopped (snd (fst e))] else []) (st_owners s) = []).
   { intros Hn. apply not_in_refs in Hn as [N1 N2]. split.
-    - apply not_in_refs. simpl. split; [|exact N2]. intros e He. apply filter_In in He as [He _]. auto.
+    - apply not_in_refs. split; [|intros r Hr; apply N2; apply Hsubr; exact Hr].
+      intros e He. simpl in He. apply filter_In in He as [He _]. auto.
     - apply flat_map_nil. intros e He. replace (ow_ch (snd e) =? ch) with false; [reflexivity|].
       symmetry. apply N.eqb_neq. auto. }
   destruct cs as [|k nm cache dd|]; try (simpl; apply Hother; exact R).
@@ -1057,24 +1272,23 @@ Proof.
   assert (He0 : In e0 (st_owners s)) by (apply lookup_In; exact L).
   rewrite (flat_map_unique _ _ (st_owners s) e0 ND He0).
   2:{ intros e He Q. apply andb_true_iff in Q as [Q _]. apply N.eqb_eq in Q. simpl. auto. }
-  simpl. rewrite N.eqb_refl. simpl. unfold expired. simpl.
+  assert (Hkeep : expired now e0 = false -> Rc ch (timeout_phase_p now s) (CCurrent k nm cache dd)).
+  { intros Hx. split; [|split].
+    - simpl. apply lookup_filter_keep; [exact L|]. fold e0. rewrite Hx. reflexivity.
+    - intros e He. simpl in He. apply filter_In in He as [He _]. auto.
+    - intros r Hr. apply C3. apply Hsubr. exact Hr. }
+  simpl. rewrite N.eqb_refl. simpl. unfold expired in *. simpl in *.
   destruct dd as [d|]; simpl.
-  - rewrite resolver_expired_pinned. destruct (d <=? now) eqn:E; simpl.
-    + split; [|reflexivity]. apply not_in_refs. simpl. split.
-      * intros e He Ech. apply filter_In in He as [He Hne].
+  - rewrite resolver_expired_pinned in *. destruct (d <=? now) eqn:E; simpl.
+    + split; [|reflexivity]. apply not_in_refs. split.
+      * intros e He Ech. simpl in He. apply filter_In in He as [He Hne].
         pose proof (owner_entry_unique k _ _ e ND L He (C2 e He Ech)) as ->.
-        unfold expired in Hne. simpl in Hne. rewrite resolver_expired_pinned, E in Hne. discriminate.
-      * intros r Hr Ech. destruct (C3 r Hr Ech) as [Hk _].
-        apply (hazard_false now _ _ e0 r Hz He0); [|exact Hr | exact Hk].
+        unfold expired in Hne. simpl in Hne. rewrite ?resolver_expired_pinned, E in Hne. discriminate.
+      * intros r Hr Ech. destruct (C3 r (Hsubr r Hr) Ech) as [Hk _].
+        apply (purged_not_expired now s e0 r B ND He0); [|exact Hr | exact Hk].
         unfold expired. simpl. rewrite resolver_expired_pinned. exact E.
-    + split; [|reflexivity]. split; [|split].
-      * apply lookup_filter_keep; [exact L|]. unfold expired. simpl. rewrite resolver_expired_pinned, E. reflexivity.
-      * intros e He. apply filter_In in He as [He _]. auto.
-      * exact C3.
-  - split; [|reflexivity]. split; [|split].
-    + apply lookup_filter_keep; [exact L | reflexivity].
-    + intros e He. apply filter_In in He as [He _]. auto.
-    + exact C3.
+    + split; [|reflexivity]. apply Hkeep. reflexivity.
+  - split; [|reflexivity]. apply Hkeep. reflexivity.
 Qed.
 
 Lemma rc_start ch now s cs host nm cache timeout ch' :
@@ -1294,12 +1508,12 @@ Proof.
 Qed.
 
 Lemma rc_rerun ch now s cs s3 p e :
-  Rc ch s cs -> NoDup (map rkey (st_retrans s)) -> rerun_phase now s = (s3, p, e) ->
+  Rc ch s cs -> NoDup (map rkey (st_retrans s)) -> rerun_phase0 now s = (s3, p, e) ->
   Rc ch s3 cs
   /\ (events_on ch e = []
       \/ exists k nm dd, cs = CCurrent k nm false dd /\ events_on ch e = [EStarted nm]).
 Proof.
-  intros R ND E. unfold rerun_phase in E. injection E as <- <- <-.
+  intros R ND E. unfold rerun_phase0 in E. injection E as <- <- <-.
   rewrite events_on_reruns.
   assert (Hnew : forall r, In r (flat_map (rerun_one now (st_owners s)) (filter (due now) (st_retrans s))) ->
                  exists r0, In r0 (st_retrans s) /\ rkey r = rkey r0 /\ r_name r = r_name r0 /\ r_ch r = r_ch r0).
@@ -1341,23 +1555,29 @@ Proof. unfold closed_events. apply events_on_closed. Qed.
 Lemma c_timeout_notyet now : c_timeout now CNotYet = (CNotYet, []).
 Proof. reflexivity. Qed.
 
+Lemma mid_purge_dead now z s : Mid now z s -> Mid now z (purge_dead s).
+Proof.
+  intros [Hc Hr Hd Hi Ho H1 Ht]. constructor; simpl; auto.
+  - intros r Hr0. apply filter_In in Hr0 as [Hr0 _]. auto.
+  - apply NoDup_map_filter. exact H1.
+Qed.
+
 (* one iteration, per channel *)
 Lemma rc_iterate ch s it cs :
-  Inv s -> Rc ch s cs -> i_now it < u64_max ->
+  Good s -> Rc ch s cs -> i_now it < u64_max ->
   NoDup (intro_chans (i_cmds it)) -> (In ch (intro_chans (i_cmds it)) -> cs = CNotYet) ->
-  o_hazard (snd (iterate s it)) = false ->
   c_obs_ok (fst (c_iter ch it cs)) (snd (c_iter ch it cs)) (events_on ch (o_events (snd (iterate s it)))) = true
   /\ (has_shutdown (i_cmds it) = false -> Rc ch (fst (iterate s it)) (fst (c_iter ch it cs))).
 Proof.
-  intros I R Hnow ND F Hz. rewrite o_hazard_iterate in Hz.
-  destruct (rc_timeout ch (i_now it) s cs R (inv_own s I) Hz) as [R1 Ev1].
-  pose proof (inv_mid s (i_now it) I) as M1.
+  intros [I H B] R Hnow ND F. rewrite (iterate_eq s it H).
+  destruct (rc_timeout ch (i_now it) s cs R B (inv_own s I)) as [R1 Ev1].
+  pose proof (mid_purge_dead _ _ _ (inv_mid s (i_now it) I)) as M1. fold (timeout_phase_p (i_now it) s) in M1.
   assert (F1 : In ch (intro_chans (i_cmds it)) -> fst (c_timeout (i_now it) cs) = CNotYet).
-  { intros H. rewrite (F H). reflexivity. }
-  unfold iterate, c_iter.
-  destruct (run_cmds (i_now it) (i_cmds it) (timeout_phase (i_now it) s)) as [[s2 p_c] ev_c] eqn:E.
+  { intros Hin. rewrite (F Hin). reflexivity. }
+  unfold iterate_p, c_iter.
+  destruct (run_cmds (i_now it) (i_cmds it) (timeout_phase_p (i_now it) s)) as [[s2 p_c] ev_c] eqn:E.
   destruct (rc_cmds ch (i_now it) (i_cmds it) false _ _ s2 p_c ev_c Hnow M1 R1 ND F1 E) as [Ev2 RH].
-  pose proof (alive_run_cmds (i_now it) (i_cmds it) (timeout_phase (i_now it) s) eq_refl) as A.
+  pose proof (alive_run_cmds (i_now it) (i_cmds it) (timeout_phase_p (i_now it) s) eq_refl) as A.
   rewrite E in A. cbn [fst] in A. rewrite A.
   destruct (c_timeout (i_now it) cs) as [cs1 e1]. cbn [fst snd] in *.
   destruct (c_cmds (i_now it) ch (i_cmds it) cs1) as [cs2 e2]. cbn [fst snd] in *.
@@ -1366,7 +1586,7 @@ Proof.
     rewrite !events_on_app, events_on_closed_events, app_nil_r, Ev1, Ev2.
     unfold c_obs_ok. rewrite evs_eqb_refl. reflexivity.
   - destruct (RH eq_refl) as [R2 [z' M2]].
-    destruct (rerun_phase (i_now it) s2) as [[s3 p_r] ev_r] eqn:E3.
+    destruct (rerun_phase0 (i_now it) s2) as [[s3 p_r] ev_r] eqn:E3.
     destruct (rc_rerun ch (i_now it) s2 cs2 s3 p_r ev_r R2 (mid_one _ _ _ M2) E3) as [R3 Ev3].
     cbn [fst snd o_events]. split.
     + rewrite !events_on_app, events_on_closed_events, app_nil_r, Ev1, Ev2.
@@ -1393,14 +1613,13 @@ Proof.
 Qed.
 
 Lemma c_check_run ch : forall h s cs,
-  Inv s -> Rc ch s cs -> in_range h -> NoDup (hist_chans h) -> (In ch (hist_chans h) -> cs = CNotYet) ->
-  no_hazard (run s h) = true -> c_check ch h (run s h) cs = true.
+  Good s -> Rc ch s cs -> in_range h -> wf_cmds_hist h -> NoDup (hist_chans h) ->
+  (In ch (hist_chans h) -> cs = CNotYet) -> c_check ch h (run s h) cs = true.
 Proof.
-  induction h as [|it h IH]; intros s cs I R Rg ND F NH; [reflexivity|].
+  induction h as [|it h IH]; intros s cs G R Rg W ND F; [reflexivity|].
   destruct (st_alive s) eqn:A; [|rewrite run_dead by exact A; reflexivity].
   rewrite run_cons in * by exact A. cbn [c_check].
-  simpl in NH. apply andb_true_iff in NH as [NH1 NH2]. apply negb_true_iff in NH1.
-  inversion Rg as [|x xs Rg1 Rg2]; subst.
+  inversion Rg as [|x xs Rg1 Rg2]; subst. inversion W as [|y ys W1 W2]; subst.
   unfold hist_chans in ND, F. cbn [flat_map] in ND, F. fold (hist_chans h) in ND, F.
   destruct (NoDup_app_inv _ _ ND) as [ND2 Hdis].
   assert (ND1 : NoDup (intro_chans (i_cmds it))).
@@ -1409,13 +1628,13 @@ Proof.
     intros H. apply Hn. apply in_or_app. left. exact H. }
   assert (F1 : In ch (intro_chans (i_cmds it)) -> cs = CNotYet).
   { intros H. apply F. apply in_or_app. left. exact H. }
-  destruct (rc_iterate ch s it cs I R Rg1 ND1 F1 NH1) as [OK RH].
+  destruct (rc_iterate ch s it cs G R Rg1 ND1 F1) as [OK RH].
   destruct (iterate_shape s it) as [_ [X AL]].
   destruct (c_iter ch it cs) as [cs' expected] eqn:EC. cbn [fst snd] in *.
   rewrite OK, X. simpl.
   destruct (has_shutdown (i_cmds it)) eqn:HS; [reflexivity|].
   apply IH; auto.
-  - apply iterate_inv; [exact I | right; exact Rg1 | rewrite AL; reflexivity].
+  - apply good_iterate; auto.
   - intros H. assert (Hn : ~ In ch (intro_chans (i_cmds it))) by (intros H1; exact (Hdis ch H1 H)).
     assert (cs = CNotYet) by (apply F; apply in_or_app; right; exact H). subst cs.
     pose proof (c_iter_notyet ch it Hn) as E. rewrite EC in E. exact E.
@@ -1443,24 +1662,17 @@ Proof.
 Qed.
 
 (* C13: the conclusion of the theorem in Props/C13.v *)
-Lemma chk_C13_model t0 h :
-  wf_hist t0 h = true -> hazard_free t0 h = true -> chk_C13 t0 h (model_run t0 h) = true.
+Lemma chk_C13_model t0 h : wf_hist t0 h = true -> chk_C13 t0 h (model_run t0 h) = true.
 Proof.
-  intros W HF. unfold chk_C13, model_run. cbn [o_sent o_events init_out].
+  intros W. unfold chk_C13, model_run. cbn [o_sent o_events init_out].
   rewrite shape_ok_run by (rewrite init_spec; reflexivity). rewrite pkts_shaped_run. simpl.
   apply andb_true_iff. split.
   - apply forallb_forall. intros ch _.
-    apply (c_check_run ch h (init t0) CNotYet (inv_init t0) (rc_init ch t0)
-             (wf_hist_in_range t0 h W) (wf_hist_nodup t0 h W) (fun _ => eq_refl) HF).
+    apply (c_check_run ch h (init t0) CNotYet (good_init t0) (rc_init ch t0)
+             (wf_hist_in_range t0 h W) (wf_hist_cmds t0 h W) (wf_hist_nodup t0 h W) (fun _ => eq_refl)).
   - apply forallb_forall. intros k _.
-    apply (k_check_run k h (init t0) None (invh_init t0) (rk_init k t0) HF).
-Qed.
-
-Lemma chk_C13_timely t0 h :
-  wf_hist t0 h = true -> timely t0 h = true -> chk_C13 t0 h (model_run t0 h) = true.
-Proof.
-  intros W T. apply chk_C13_model; [exact W|].
-  apply timely_is_hazard_free; [eapply wf_hist_in_range; exact W | exact T].
+    apply (k_check_run k h (init t0) None (good_init t0) (rk_init k t0)
+             (wf_hist_in_range t0 h W) (wf_hist_cmds t0 h W)).
 Qed.
 
 (* ================================================================== C12: wake-ups *)
@@ -1545,23 +1757,22 @@ Proof.
 Qed.
 
 Lemma w_check_run ks : forall h s sts,
-  Inv s -> InvH s -> Rks ks s sts -> in_range h -> no_hazard (run s h) = true ->
+  Good s -> Rks ks s sts -> in_range h -> wf_cmds_hist h ->
   w_check ks h (run s h) sts (st_next_ip s, st_ip_ival s) = true.
 Proof.
-  induction h as [|it h IH]; intros s sts I H RK Rg NH; [reflexivity|].
+  induction h as [|it h IH]; intros s sts G RK Rg W; [reflexivity|].
   destruct (st_alive s) eqn:A; [|rewrite run_dead by exact A; reflexivity].
   rewrite run_cons in * by exact A. cbn [w_check].
-  simpl in NH. apply andb_true_iff in NH as [NH1 NH2]. apply negb_true_iff in NH1.
-  inversion Rg as [|x xs Rg1 Rg2]; subst.
+  inversion Rg as [|x xs Rg1 Rg2]; subst. inversion W as [|y ys W1 W2]; subst.
+  pose proof (good_inv s G) as I.
   destruct (iterate_shape s it) as [_ [X AL]]. rewrite X.
   destruct (has_shutdown (i_cmds it)) eqn:HS; [reflexivity|].
-  assert (AL' : st_alive (fst (iterate s it)) = true) by exact AL.
-  pose proof (iterate_inv s it I (or_intror Rg1) AL') as I'.
-  pose proof (invh_iterate s it H NH1 HS) as H'.
+  pose proof (good_iterate s it G (or_intror Rg1) W1 HS) as G'.
+  pose proof (good_inv _ G') as I'.
   assert (RK' : Rks ks (fst (iterate s it)) (k_states ks it sts)).
-  { clear - RK H NH1 HS. induction RK as [|k st ks sts R RK IHk]; simpl; [constructor|].
+  { clear - RK G HS. induction RK as [|k st ks sts R RK IHk]; simpl; [constructor|].
     constructor; [|exact IHk].
-    destruct (rk_iterate k s it st H R NH1) as [_ [_ [_ [_ RH]]]]. apply RH. exact HS. }
+    destruct (rk_iterate k s it st G R) as [_ [_ [_ [_ RH]]]]. apply RH. exact HS. }
   rewrite <- (iterate_ip s it HS). cbn [fst snd].
   rewrite (o_wake_iterate s it HS).
   apply andb_true_iff. split; [apply andb_true_iff; split|].
@@ -1582,10 +1793,9 @@ Qed.
 Lemma rks_init ks t0 : Rks ks (init t0) (map (fun _ => None) ks).
 Proof. induction ks as [|k ks IH]; simpl; constructor; [apply rk_init | exact IH]. Qed.
 
-Lemma chk_C12_model t0 h :
-  wf_hist t0 h = true -> hazard_free t0 h = true -> chk_C12 t0 h (model_run t0 h) = true.
+Lemma chk_C12_model t0 h : wf_hist t0 h = true -> chk_C12 t0 h (model_run t0 h) = true.
 Proof.
-  intros W HF. unfold chk_C12, model_run.
+  intros W. unfold chk_C12, model_run.
   rewrite shape_ok_run by (rewrite init_spec; reflexivity).
   assert (E0 : o_wake (init_out t0) = Some (t0 + 5000)) by reflexivity.
   rewrite E0. cbn [wake_covers moves_on forallb].
@@ -1593,21 +1803,13 @@ Proof.
   cbn [andb orb].
   change (t0 + 5000, 5000) with (st_next_ip (init t0), st_ip_ival (init t0)).
   apply w_check_run.
-  - apply inv_init.
-  - apply invh_init.
+  - apply good_init.
   - apply rks_init.
   - eapply wf_hist_in_range. exact W.
-  - exact HF.
+  - eapply wf_hist_cmds. exact W.
 Qed.
 
-Lemma chk_C12_timely t0 h :
-  wf_hist t0 h = true -> timely t0 h = true -> chk_C12 t0 h (model_run t0 h) = true.
-Proof.
-  intros W T. apply chk_C12_model; [exact W|].
-  apply timely_is_hazard_free; [eapply wf_hist_in_range; exact W | exact T].
-Qed.
-
-(* state-level statements over ALL well-formed histories (no hazard hypothesis) *)
+(* state-level statements over all well-formed histories *)
 Lemma wake_covers_work_all t0 h :
   wf_hist t0 h = true -> st_alive (final (init t0) h) = true ->
   forall d, In d (due_work (final (init t0) h)) ->
@@ -1659,12 +1861,6 @@ Lemma shutdown_clears s :
   /\ snd (exec_shutdown s) = map (fun e => (ow_ch (snd e), EStopped (snd (fst e)))) (st_owners s).
 Proof. unfold exec_shutdown. simpl. auto. Qed.
 
-(* the deadline path: in a hazard-free iteration no retransmission of a timed-out search survives *)
-Lemma timeout_clears now s e r :
-  hazard now (st_owners s) (st_retrans s) = false ->
-  In e (st_owners s) -> expired now e = true -> In r (st_retrans s) -> rkey r <> fst e.
-Proof. intros. eapply hazard_false; eassumption. Qed.
-
 Lemma no_spin_idle t0 h now :
   wf_hist t0 (h ++ [mkIter now []]) = true -> st_alive (final (init t0) h) = true ->
   forall w, o_wake (snd (iterate (final (init t0) h) (mkIter now []))) = Some w -> now < w.
@@ -1672,3 +1868,34 @@ Proof.
   intros W A w Hw. destruct (no_spin_all t0 h (mkIter now []) W A w Hw) as [H|[H _]]; [exact H|].
   discriminate.
 Qed.
+
+(* every reachable live state is Good; in particular (InvH) every queued retransmission
+   belongs to a search that is still current - same channel, time before its deadline *)
+Lemma good_final : forall h s,
+  Good s -> in_range h -> wf_cmds_hist h -> st_alive (final s h) = true -> Good (final s h).
+Proof.
+  induction h as [|it h IH]; intros s G Rg W A; [exact G|].
+  destruct (st_alive s) eqn:As; [|rewrite final_dead in A by exact As; congruence].
+  rewrite final_cons in * by exact As.
+  inversion Rg as [|x xs Rg1 Rg2]; subst. inversion W as [|y ys W1 W2]; subst.
+  destruct (iterate_shape s it) as [_ [_ AL]].
+  destruct (has_shutdown (i_cmds it)) eqn:HS.
+  - simpl in AL. rewrite final_dead in A by exact AL. congruence.
+  - apply IH; auto. apply good_iterate; auto.
+Qed.
+
+Lemma no_chain_without_search t0 h :
+  wf_hist t0 h = true -> st_alive (final (init t0) h) = true ->
+  forall r, In r (st_retrans (final (init t0) h)) ->
+  exists o, lookup (rkey r) (st_owners (final (init t0) h)) = Some o /\ ow_ch o = r_ch r
+            /\ (forall d, ow_deadline o = Some d -> r_time r < d).
+Proof.
+  intros W A. apply good_invh. apply good_final;
+    [apply good_init | eapply wf_hist_in_range; exact W | eapply wf_hist_cmds; exact W | exact A].
+Qed.
+
+(* a retransmission whose search is gone is dropped by the re-run: no query, no event, nothing queued *)
+Lemma dead_rerun_dropped now s r :
+  rerun_live (st_owners s) r = false ->
+  ~ In r (filter (rerun_live (st_owners s)) (filter (due now) (st_retrans s))).
+Proof. intros HL Hin. apply filter_In in Hin as [_ Hin]. congruence. Qed.
